@@ -100,6 +100,17 @@ func c05(c *Ctx) {
 	}
 
 	rd.sticky("C05.sticky")
+	// the 1000-call budget of a failed connection is spent by NextReader only
+	rd.owners("C05.sticky", c.P.Field("Conn", "readErrCount"), "(*Conn).NextReader")
+	// a transport fault met while skipping the rest of an abandoned frame, or while reading a header, ends the read
+	{
+		sel := func(ev *core.Event) bool {
+			return (ev.Static != nil && extName(ev.Static) == "io.CopyN") || callsStatic(ev, rd.read)
+		}
+		if c.errMustPropagate("C05.header-eof", rd.advance, sel, core.Opts{Unroll: 0, Inline: rd.inl()}) < 3 {
+			r.Fail("C05.header-eof", shortFn(rd.advance), "floor-transport-reads", rd.advance.Pos(), "fewer than 3 transport reads found in advanceFrame")
+		}
+	}
 	r.Rule("C05.bytes-unmasked", "bytes handed to the application together with an error are unmasked like any others (same rule as C03.mask-thread for messageReader.Read)")
 	rd.readUnmask("C05.bytes-unmasked")
 
@@ -130,31 +141,8 @@ func c05(c *Ctx) {
 		r.Check("C05.readjson", shortFn(fn), "decoder-EOF-converted", fn.Pos(), ok && n > 0, why)
 	}
 
-	// ---- wrapper pass-through
+	flateWrapperRule(c, "C05.wrapper")
 	{
-		fn := c.fn("(*flateReadWrapper).Read")
-		ok, why := true, "returns exactly the (n, err) of the wrapped inflater's Read"
-		n := 0
-		c.explore("C05.wrapper", fn, core.Opts{}, func(p *core.Path) {
-			if p.End != core.EndReturn || len(p.Results) != 2 {
-				return
-			}
-			for i := range p.Events {
-				ev := &p.Events[i]
-				if ev.Kind == core.EvCall && ev.Method != nil && ev.Method.Name() == "Read" && ev.Static == nil && ev.Depth == 0 {
-					n++
-					ie := p.X.ExtractOf(ev.Result, 1, nil)
-					sameErr := p.Results[1] == ie || (isEOFLoad(p.Results[1]) && knownEOF(p, ie)) // `return n, io.EOF` under [err == io.EOF]
-					if p.Results[0] != p.X.ExtractOf(ev.Result, 0, nil) || !sameErr {
-						ok, why = false, "flateReadWrapper.Read alters the inflater's result at "+c.P.Pos(p.Ret.Pos())+" (returns "+p.Results[0].String()+", "+p.Results[1].String()+")"
-					}
-				}
-			}
-			if n == 0 && c.mayBeEOF(p.Results[1]) {
-				ok, why = false, "flateReadWrapper.Read can report io.EOF without reading"
-			}
-		})
-		r.Check("C05.wrapper", shortFn(fn), "inflater-result-unchanged", fn.Pos(), ok && n > 0, why)
 		all := func(ev *core.Event) bool { return true }
 		c.errMustPropagate("C05.wrapper", c.fn("(*Conn).ReadMessage"), all, core.Opts{})
 	}
@@ -288,4 +276,52 @@ func (rd *reader) unexpectedEOFProvenance(rule string) {
 		}
 	})
 	r.Check(rule, shortFn(fn), "abnormal-closure-only-if-incomplete", fn.Pos(), ok && n > 0, why)
+}
+
+// flateWrapperRule: flateReadWrapper.Read hands the inflater's (n, err) to
+// the caller unchanged, and gives the inflater up (Close / pool Put) only on
+// paths that know the inflater reported io.EOF — after any other error the
+// next Read must report that error again, not io.ErrClosedPipe.
+func flateWrapperRule(c *Ctx, rule string) {
+	r := c.R
+	fn := c.fn("(*flateReadWrapper).Read")
+	ok, why := true, "returns exactly the (n, err) of the wrapped inflater's Read"
+	n := 0
+	c.explore(rule, fn, core.Opts{}, func(p *core.Path) {
+		if p.End != core.EndReturn || len(p.Results) != 2 {
+			return
+		}
+		for i := range p.Events {
+			ev := &p.Events[i]
+			if ev.Kind == core.EvCall && ev.Method != nil && ev.Method.Name() == "Read" && ev.Static == nil && ev.Depth == 0 {
+				n++
+				ie := p.X.ExtractOf(ev.Result, 1, nil)
+				sameErr := p.Results[1] == ie || (isEOFLoad(p.Results[1]) && knownEOF(p, ie)) // `return n, io.EOF` under [err == io.EOF]
+				if p.Results[0] != p.X.ExtractOf(ev.Result, 0, nil) || !sameErr {
+					ok, why = false, "flateReadWrapper.Read alters the inflater's result at "+c.P.Pos(p.Ret.Pos())+" (returns "+p.Results[0].String()+", "+p.Results[1].String()+")"
+				}
+			}
+		}
+		if n == 0 && c.mayBeEOF(p.Results[1]) {
+			ok, why = false, "flateReadWrapper.Read can report io.EOF without reading"
+		}
+	})
+	r.Check(rule, shortFn(fn), "inflater-result-unchanged", fn.Pos(), ok && n > 0, why)
+	// release only at EOF
+	okR, whyR := true, "the inflater is given up only on paths that know its Read returned io.EOF"
+	closeFn := c.fn("(*flateReadWrapper).Close")
+	c.explore(rule, fn, core.Opts{}, func(p *core.Path) {
+		var inner *core.Term
+		for i := range p.Events {
+			ev := &p.Events[i]
+			if ev.Kind == core.EvCall && ev.Method != nil && ev.Method.Name() == "Read" && ev.Static == nil && own(ev) {
+				inner = p.X.ExtractOf(ev.Result, 1, nil)
+			}
+			released := callsStatic(ev, closeFn) || (ev.Kind == core.EvCall && ev.Static != nil && extName(ev.Static) == "(*sync.Pool).Put")
+			if released && inner != nil && !knownEOF(p, inner) {
+				okR, whyR = false, "flateReadWrapper.Read gives the inflater up at "+c.P.Pos(ev.Instr.Pos())+" although its Read is not known to have returned io.EOF: after a transport or protocol error the next Read of the same message reader returns io.ErrClosedPipe instead of that error"
+			}
+		}
+	})
+	r.Check(rule, shortFn(fn), "inflater-released-only-at-EOF", fn.Pos(), okR, whyR)
 }
